@@ -19,6 +19,7 @@ import (
 	"errors"
 	"flag"
 	"fmt"
+	"math"
 	"os"
 	"sort"
 	"strconv"
@@ -556,7 +557,22 @@ type gen struct {
 	live map[int]bool // keys believed present (by comparator class representative is not tracked; only a hint)
 }
 
-func (g *gen) next() int { g.val++; return g.val }
+// next: mostly fresh positive values (a stale value is recognisable); sometimes the zero value, a
+// negative, a repeat of the latest fresh value or an extreme int
+func (g *gen) next() int {
+	switch p := g.r.Intn(100); {
+	case p < 8:
+		return 0
+	case p < 11:
+		return -g.r.Range(1, 9)
+	case p < 14:
+		return g.val
+	case p < 15:
+		return vlib.Pick(g.r, []int{math.MaxInt, math.MinInt})
+	}
+	g.val++
+	return g.val
+}
 
 func (g *gen) insert(k int) {
 	switch g.kind {
@@ -891,6 +907,22 @@ func generate(tier string, out *vlib.Out) {
 		"new rbtree asc\nadd 10 1\nadd 5 2\nadd 15 3\nadd 3 4\nadd 7 5\nadd 12 6\nadd 18 7\nadd 1 8\nadd 4 9\nadd 6 10\nadd 8 11\ndelete 10\nkvs\ndelete 5\nkvs\ndelete 1\ndelete 3\ndelete 4\ndelete 18\ndelete 15\ndelete 12\ndelete 8\ndelete 7\ndelete 6\nkvs\nsize",
 		"new rbtree asc\nadd 1 1\nadd 2 2\nadd 3 3\nadd 4 4\nadd 5 5\nadd 6 6\nadd 7 7\nadd 8 8\nadd 9 9\nadd 10 10\ndelete 1\ndelete 2\ndelete 3\ndelete 4\ndelete 5\ndelete 6\ndelete 7\ndelete 8\ndelete 9\ndelete 10\nsize",
 		"new rbtree desc\nadd 1 1\nadd 2 2\nadd 3 3\nadd 4 4\nadd 5 5\nadd 6 6\nadd 7 7\nadd 8 8\ndelete 8\ndelete 7\ndelete 6\ndelete 5\ndelete 4\ndelete 3\ndelete 2\ndelete 1\nadd 1 1\nkvs",
+		// zero VALUES under non-zero keys (a stored zero is found, overwriting with zero is an overwrite,
+		// the successor copy of a two-child delete moves a zero value too), then key 0 with non-zero values
+		"new rbtree asc\nadd 1 0\nfind 1\nsize\nkvs\nset 1 5\nset 1 0\nfind 1\nkvs\nadd 1 0\ndelete 1\nfind 1\nsize",
+		"new pubtree asc\nadd 2 7\nadd 1 0\nadd 3 0\nset 2 0\nfind 2\nkvs\nset 2 8\nfind 2\ndelete 2\nkvs\nfind 3\ndelete 3\ndelete 1\nsize",
+		"new rbtree asc\nadd 10 1\nadd 5 0\nadd 15 0\nadd 12 0\nadd 18 3\ndelete 10\nkvs\nfind 12\ndelete 15\nkvs",
+		"new treemap asc\nput 1 5\nput 1 0\nget 1\nvalues\nlen\nput 2 0\nget 2\nvalues\ndelete 1\nget 1\ndelete 2\nlen",
+		"new linkedmap asc\nput 2 5\nput 1 0\nput 2 0\nget 2\nkeys\nvalues\ndelete 1\nvalues\nlen",
+		"new multimap asc\nput 1 0\nput 1 0\nputmany 2 0,0\nget 1\nget 2\nvalues\ndelete 1\nget 1\nlen",
+		"new treemapof asc 1:0,2:0,3:5\nkeys\nvalues\nget 1\nput 3 0\nvalues\nlen",
+		"new rbtree asc\nfind 0\nadd 0 5\nfind 0\nadd 0 6\nset 0 7\nkvs\nadd -1 1\nadd 1 2\nkvs\ndelete 0\nfind 0\nkvs\nsize",
+		"new treemap desc\nget 0\nput 0 5\nget 0\nput -3 6\nput 3 7\nkeys\nvalues\ndelete 0\nget 0\nlen",
+		"new treeset asc\nexist 0\nadd 0\nexist 0\nadd -2\nadd 2\nkeys\ndelete 0\nexist 0\nkeys",
+		// extreme keys (only under `desc`: the other comparators subtract) and extreme / negative / repeated values
+		"new rbtree desc\nadd 9223372036854775807 1\nadd -9223372036854775808 2\nadd 0 3\nadd 9223372036854775806 4\nadd -9223372036854775807 5\nkvs\nfind -9223372036854775808\nfind 9223372036854775807\ndelete 0\ndelete 9223372036854775807\nkvs\nsize",
+		"new treemap desc\nput 9223372036854775807 -1\nput -9223372036854775808 -1\nput 1 9223372036854775807\nput 2 -9223372036854775808\nkeys\nvalues\nget 2\ndelete -9223372036854775808\nvalues",
+		"new rbtree asc\nadd 1 7\nadd 2 7\nadd 3 7\nset 2 7\nset 2 -7\nkvs\ndelete 2\nkvs",
 	}
 	for _, c := range corpus {
 		for _, l := range strings.Split(c, "\n") {
